@@ -1,7 +1,10 @@
+#[cfg(not(similar_verif))]
 use std::collections::HashMap;
 use std::hash::Hash;
 
 use super::DiffableStrRef;
+#[cfg(similar_verif)]
+use crate::verif::HashMap;
 
 // quick and dirty way to get an upper sequence ratio.
 pub fn upper_seq_ratio<T: PartialEq>(seq1: &[T], seq2: &[T]) -> f32 {
